@@ -66,6 +66,29 @@ def main():
         else:
             print(f"algo/{cfg}:", vlib.parse_tlc_stats(r.stdout))
             layer2[cfg] = dict(vlib.parse_tlc_stats(r.stdout), result="no invariant violated")
+    # Instances that MUST be refuted: a selector threshold one step past the edge of validity that the neighbouring instance
+    # establishes (the narrow carry path of square_redc is valid for top limbs below ceil(B/3) (+1 for N = 2), the dropped carry
+    # of mul_redc below B/2 (+1 for N = 2)).  The W = 64 images of these edges are what C11's aimed generators use.
+    for mod, ok_cfg, bad_cfg in (("Redc", "Redc_square_edge_n2", "Redc_square_pastedge_n2"), ("Redc", "Redc_square_edge_n3", "Redc_square_pastedge_n3"),
+                                 ("Redc", "Redc_mul_edge_n2", "Redc_mul_pastedge_n2")):
+        for cfg, want_violation in ((ok_cfg, False), (bad_cfg, True)):
+            meta = os.path.join(vlib.OUT, "algo_" + cfg)
+            try:
+                r = subprocess.run(vlib.tlc_cmd(mod + ".tla", cfg + ".cfg", meta, workers=8, gc="-XX:+UseParallelGC", xmx="6g"),
+                                   cwd=algo, capture_output=True, text=True, timeout=900)
+            except subprocess.TimeoutExpired:
+                sys.stderr.write(f"setup: Layer-2 model {cfg} timed out\n")
+                rc = 2
+                continue
+            violated = "is violated" in r.stdout
+            clean = "No error has been found" in r.stdout
+            if (want_violation and not violated) or (not want_violation and not clean):
+                sys.stderr.write(f"setup: Layer-2 edge instance {cfg}: expected {'a violation' if want_violation else 'no violation'}\n" + r.stdout[-1200:])
+                rc = 2
+            else:
+                print(f"algo/{cfg}:", "violated as expected" if want_violation else vlib.parse_tlc_stats(r.stdout))
+                layer2[cfg] = ({"result": "invariant violated, as expected one step past the edge"} if want_violation
+                               else dict(vlib.parse_tlc_stats(r.stdout), result="no invariant violated"))
     # self-consistency of the oracles: codecs (encoders against denotations, generative against analytic definitions) and
     # text (what the formatter may print against the parser contracts and native digits), floats (tiny formats, all patterns)
     for mod, cfg in (("MC_Codecs", "MC_Codecs_small"), ("MC_Text", "MC_Text_small"), ("MC_Float", "MC_Float_small")):
